@@ -32,7 +32,7 @@ def make_contests(ids, sizes, cards_per=None, test=None, risk_limit=0.05):
         d[c] = {"name": c, "risk_limit": risk_limit, "cards": (cards_per or {}).get(c, 10), "choice_function": Contest.SOCIAL_CHOICE_FUNCTION.PLURALITY,
                 "n_winners": 1, "candidates": ["A", "B"], "winner": ["A"], "audit_type": Audit.AUDIT_TYPE.CARD_COMPARISON,
                 "test": test or NonnegMean.alpha_mart, "estim": NonnegMean.shrink_trunc, "bet": None, "test_kwargs": {}, "g": 0.1,
-                "use_style": True, "sample_size": sizes.get(c, 0), "sample_threshold": None, "tally": None}
+                "use_style": True, "sample_size": sizes.get(c, 0), "tally": None}  # no threshold given: the constructor's own default
     cons = Contest.from_dict_of_dicts(d)
     return cons
 
